@@ -603,6 +603,10 @@ def originOk (cfg : SrvCfg) (env : SrvEnv) (hs : List Hdr) : Bool :=
   | some v => count hs (originKey v) == 0 ||
       (count hs (originKey v) == 1 && originAllowed cfg env (value hs (originKey v)))
 
+/-- every permessage-compress offer in the extensions value is well-formed (autobahn refuses the whole handshake
+otherwise; offers for extensions it does not know are ignored) -/
+def offersOk (v : Bytes) : Bool := ((parseExtensions v).filter (fun e => isPmce e.name)).all (pmceParamsOk true)
+
 /-- RFC 6455 §4.2.1 + the server's configuration -/
 structure ValidRequest (cfg : SrvCfg) (env : SrvEnv) (line : Bytes) (hs : List Hdr) : Prop where
   line : requestLineOk env line = true
@@ -614,7 +618,8 @@ structure ValidRequest (cfg : SrvCfg) (env : SrvEnv) (line : Bytes) (hs : List H
   protocols : ((splitOn 44 (value hs b!"sec-websocket-protocol")).map strip).Nodup
   origin : originOk cfg env hs = true
   key : count hs b!"sec-websocket-key" = 1 ∧ keyShapeOk (strip (value hs b!"sec-websocket-key")) = true
-  extensions : count hs b!"sec-websocket-extensions" ≤ 1
+  extensions : count hs b!"sec-websocket-extensions" ≤ 1 ∧
+    offersOk (value hs b!"sec-websocket-extensions") = true
   capacity : cfg.maxConnections = 0 ∨ env.connCount ≤ cfg.maxConnections
 
 instance (cfg : SrvCfg) (env : SrvEnv) (line : Bytes) (hs : List Hdr) : Decidable (ValidRequest cfg env line hs) :=
@@ -627,7 +632,7 @@ instance (cfg : SrvCfg) (env : SrvEnv) (line : Bytes) (hs : List Hdr) : Decidabl
      ((splitOn 44 (value hs b!"sec-websocket-protocol")).map strip).Nodup ∧
      originOk cfg env hs = true ∧
      (count hs b!"sec-websocket-key" = 1 ∧ keyShapeOk (strip (value hs b!"sec-websocket-key")) = true) ∧
-     count hs b!"sec-websocket-extensions" ≤ 1 ∧
+     (count hs b!"sec-websocket-extensions" ≤ 1 ∧ offersOk (value hs b!"sec-websocket-extensions") = true) ∧
      (cfg.maxConnections = 0 ∨ env.connCount ≤ cfg.maxConnections))
     ⟨fun ⟨a, b, c, d, e, f, g, h, i, j⟩ => ⟨a, b, c, d, e, f, g, h, i, j⟩,
      fun ⟨a, b, c, d, e, f, g, h, i, j⟩ => ⟨a, b, c, d, e, f, g, h, i, j⟩⟩
